@@ -167,12 +167,7 @@ theorem planEntry_skip_of_entryPost {cfg : Cfg} {scan : List SEntry} {dst dst' :
   unfold planEntry
   cases hk : e.kind with
   | dir =>
-    simp only
-    have : (dst'.get? e.rel).isSome = true := by
-      cases hg : dst.get? e.rel with
-      | none => rw [ep.dir_new hk (hne hk) hg]; rfl
-      | some v => rw [ep.dir_old hk (by rw [hg]; simp), hg]; rfl
-    simp [this]
+    simp only [ep.dir hk (hne hk)]
   | file m k => exact fileCase m (ep.file m k hk)
   | symlink text tgt =>
     cases hl : cfg.links with
@@ -192,12 +187,7 @@ theorem planEntry_skip_of_entryPost_nonfile {cfg : Cfg} {scan : List SEntry} {ds
   unfold planEntry
   cases hk : e.kind with
   | dir =>
-    simp only
-    have : (dst'.get? e.rel).isSome = true := by
-      cases hg : dst.get? e.rel with
-      | none => rw [ep.dir_new hk (hne hk) hg]; rfl
-      | some v => rw [ep.dir_old hk (by rw [hg]; simp), hg]; rfl
-    simp [this]
+    simp only [ep.dir hk (hne hk)]
   | file m k => exact absurd hk (hnf m k)
   | symlink text tgt =>
     cases hl : cfg.links with
